@@ -133,6 +133,81 @@ print(json.dumps({"violates": len(outs) > 1, "witness_block_for_x_at_entry_by_po
 '''
 
 
+def seeds_replay(prog):
+    """a replay that runs `prog` (a module text printing one line) in fresh interpreters under 8 hash seeds"""
+    if prog is None:
+        return None
+    return "PROG = " + repr(prog) + r"""
+import subprocess, sys, os, tempfile, shutil
+d = tempfile.mkdtemp(dir=os.environ.get("TMPDIR", "/var/tmp")); fn = os.path.join(d, "replay_c10s.py")
+open(fn, "w").write("import sys; sys.path.insert(0, %r); import guppy_compat\n" % os.path.dirname(guppy_compat.__file__) + PROG)
+seen = {}
+for seed in range(8):
+    out = subprocess.run([sys.executable, fn], capture_output=True, text=True, env=dict(os.environ, PYTHONHASHSEED=str(seed))).stdout.strip().splitlines()[-1:]
+    seen.setdefault(tuple(out), seed)
+shutil.rmtree(d, ignore_errors=True)
+print(json.dumps({"violates": len(seen) > 1, "distinct_diagnostics": [list(k) for k in seen], "seeds": list(seen.values())}))
+"""
+
+
+SEED_PROGS = {
+    ("checker/expr_checker.py", "check_call"): """
+from guppylang import guppy
+from guppylang_internals.error import GuppyError
+S = guppy.type_var("Sigma"); R = guppy.type_var("Rho"); A = guppy.type_var("Alpha")
+@guppy.declare
+def bar(y: R) -> S: ...
+@guppy.declare
+def foo(x: tuple[A, int]) -> None: ...
+@guppy
+def main() -> None:
+    foo(bar(1.5))
+try:
+    main.check(); print("accepted")
+except GuppyError as e:
+    print(type(e.error).__name__, [c.rendered_message for c in e.error.children])
+""",
+    ("definition/declaration.py", "RawFunctionDecl.parse"): """
+from guppylang import guppy
+from guppylang_internals.error import GuppyError
+@guppy.declare
+def dec[alpha: bool, beta: bool, gamma: bool, delta: bool]() -> None: ...
+@guppy
+def main() -> None:
+    dec[True, False, True, False]()
+try:
+    main.check(); print("accepted")
+except GuppyError as e:
+    print(type(e.error).__name__, e.error.param.name)
+""",
+    ("definition/struct.py", "RawStructDef.parse"): """
+from guppylang import guppy
+from guppylang_internals.error import GuppyError
+@guppy.struct
+class S:
+    @guppy
+    def alpha(self: "S") -> int:
+        return 1
+    @guppy
+    def beta(self: "S") -> int:
+        return 1
+    @guppy
+    def gamma(self: "S") -> int:
+        return 1
+    alpha: int
+    beta: int
+    gamma: int
+@guppy
+def main(s: S) -> None:
+    pass
+try:
+    main.check(); print("accepted")
+except GuppyError as e:
+    print(type(e.error).__name__, e.error.field_name)
+""",
+}
+
+
 class Scanner(ast.NodeVisitor):
     """Finds uses of unordered collections; a light intra-procedural type inference."""
 
@@ -405,7 +480,7 @@ def static_part(chk):
         s = getattr(o, "site", None)
         if o.status == "refuted" and s:
             from pyvc.report import run_replay
-            script = REPLAY_ROWS if "check_rows_match" in s[1] else REPLAY_MONO if "compile" in s[1] else None
+            script = REPLAY_ROWS if "check_rows_match" in s[1] else REPLAY_MONO if "compile" in s[1] else seeds_replay(SEED_PROGS.get((s[0], s[1])))
             if script:
                 res = run_replay(script, {}, chk.repo, timeout=600)
                 o.replay = {"confirmed": bool(res.get("violates")), "script": script, "input": {}, "native": res}
